@@ -98,7 +98,16 @@ def siteProgram : String → Option Prog
   | "tlimit" => some Programs.timeoutLimitClient
   | "runner" => some Programs.runner
   | "maxconns" => some Programs.maxConns
+  | "mr" => some Programs.executeMappers
+  | "fx" => some Programs.walkLimited
   | _ => none
+
+/-- choices that take a fresh thread of the site program into the guarded function (concurrent histories). -/
+def enterChoices : String → List Bool
+  | "limit" => [true]            -- Borrow
+  | "runner" => [true, true]     -- Schedule
+  | "mr" => [false, false]       -- not cancelled; the source had an item
+  | _ => []
 
 /-- environment choices that make a fresh thread of the site program take the path of the operation. -/
 def entryChoices : String → String → Option (List Bool)
@@ -199,6 +208,9 @@ def parseHEv (tok : String) : Option (HEv × Bool) :=
 def runHistory (r : Report) (sec line : Nat) (kind : String) (n : Nat) (obs : List String) : Report := Id.run do
   let mut m : HistMon := { cap := n, inside := [] }
   let mut r := r
+  -- the same history through the site program: one fresh model thread per entry
+  let mut ir : Option IRSeq := (siteProgram kind).map fun p => { prog := p, st := St.init n, next := 0, holders := [] }
+  let mut tids : List (Nat × Tid) := []
   let mut free : Option Nat := none
   let mut freeSkip := false
   let mut enters := 0
@@ -236,6 +248,28 @@ def runHistory (r : Report) (sec line : Nat) (kind : String) (n : Nat) (obs : Li
         | .ok => pure ()
         | .malformed msg => r := r.mismatch sec line "well-formed history" msg; bad := true
         | .violation msg => r := r.violation sec line s!"kind={kind} {msg}"; bad := true
+        if !bad then
+          match ir, ev with
+          | some x, .enter t =>
+            let (s', stop) := runThread x.prog 64 x.st x.next (enterChoices kind)
+            if stop ≠ .user then r := r.mismatch sec line "site-program: thread reaches the guarded function" s!"+{t}"; bad := true
+            tids := (t, x.next) :: tids
+            ir := some { x with st := s', next := x.next + 1 }
+          | some x, .exit t =>
+            match tids.lookup t with
+            | none => r := r.mismatch sec line "site-program: known thread" s!"-{t}"; bad := true
+            | some mt =>
+              let (s', stop) := finishThread x.prog x.st mt pan
+              if stop ≠ .halt then r := r.mismatch sec line "site-program: thread finishes" s!"-{t}"; bad := true
+              tids := tids.erase (t, mt)
+              ir := some { x with st := s' }
+          | _, _ => pure ()
+  if !bad then
+    match ir with
+    | some x =>
+      if x.st.used ≠ 0 then r := r.mismatch sec line "site-program: used=0 at the end" s!"used={x.st.used}"
+      r := r.addCover s!"{kind}-site-program-histories"
+    | none => pure ()
   if !bad then
     match (if freeSkip then some n else free) with
     | none => r := r.mismatch sec line "free=<k>" "missing"
